@@ -115,7 +115,7 @@ class Case:
         self.in_shapes = [xshape(e, sizes) for e in self.xin]
         self.out_shapes = [xshape(e, sizes) for e in self.xout]
         for s in self.in_shapes + self.out_shapes:
-            if math.prod(s) > 6000:
+            if math.prod(s) > 6000 and not self.note.get("no_size_limit"):
                 raise Skip()
 
     def skeleton(self):
@@ -483,7 +483,7 @@ def gen_id(rng, P):
                 v = rng.choice(plain)
                 in_atoms.insert(rng.randint(0, len(in_atoms)), (Ax(v.name), False))
                 case.feats.add("diagonal")
-                if rng.random() < 0.2:
+                if rng.random() < 0.4:
                     in_atoms.insert(rng.randint(0, len(in_atoms)), (Ax(v.name), False))
                     case.feats.add("diagonal-triple")
             in_atoms = insert_units(rng, in_atoms, case)
@@ -640,6 +640,9 @@ def gen_elementwise(rng, P, op=None):
             v = rng.choice(plain)
             atoms_.insert(rng.randint(0, len(atoms_)), (Ax(v.name), False))
             case.feats.add("diagonal")
+            if rng.random() < 0.3:
+                atoms_.insert(rng.randint(0, len(atoms_)), (Ax(v.name), False))
+                case.feats.add("diagonal-triple")
         atoms_ = insert_units(rng, atoms_, case, 0.1)
         ins.append(structure(rng, atoms_, case, P["flat_p"]))
     case.inputs = ins
@@ -708,6 +711,9 @@ def gen_reduce(rng, P, op=None):
             v = rng.choice(plain)
             atoms_.insert(rng.randint(0, len(atoms_)), (Ax(v.name), False))
             case.feats.add("diagonal")
+            if rng.random() < 0.3:
+                atoms_.insert(rng.randint(0, len(atoms_)), (Ax(v.name), False))
+                case.feats.add("diagonal-triple")
         atoms_ = insert_units(rng, atoms_, case, 0.1)
         case.inputs = [structure(rng, atoms_, case, P["flat_p"])]
         r = rng.random()
